@@ -1344,9 +1344,9 @@ seq_t dtw_warping_paths_ndim(seq_t *wps,
         rvalue = wps[loc_base + l2 - loc_cb];
     } else if (return_dtw) {
         seq_t mir_value = INFINITY;
-        idx_t mir_rel = 0;
+        idx_t mir_rel = l1;  // nothing is marked if no candidate is found
         seq_t mic_value = INFINITY;
-        idx_t mic = 0;
+        idx_t mic = l2;  // nothing is marked if no candidate is found
         // Find smallest value in last column
         if (settings->psi_1e != 0) {
             for (ri=l1-1; ri>l1-settings->psi_1e-2 && ri>=0; ri--) {
@@ -1732,9 +1732,9 @@ seq_t dtw_warping_paths_ndim_euclidean(seq_t *wps,
         rvalue = wps[loc_base + l2 - loc_cb];
     } else if (return_dtw) {
         seq_t mir_value = INFINITY;
-        idx_t mir_rel = 0;
+        idx_t mir_rel = l1;  // nothing is marked if no candidate is found
         seq_t mic_value = INFINITY;
-        idx_t mic = 0;
+        idx_t mic = l2;  // nothing is marked if no candidate is found
         // Find smallest value in last column
         if (settings->psi_1e != 0) {
             for (ri=l1-1; ri>l1-settings->psi_1e-2 && ri>=0; ri--) {
@@ -2144,9 +2144,9 @@ seq_t dtw_warping_paths_affinity_ndim(seq_t *wps,
         rvalue = wps[loc_base + l2 - loc_cb];
     } else if (return_dtw) {
         seq_t mir_value = -INFINITY;
-        idx_t mir_rel = 0;
+        idx_t mir_rel = l1;  // nothing is marked if no candidate is found
         seq_t mic_value = -INFINITY;
-        idx_t mic = 0;
+        idx_t mic = l2;  // nothing is marked if no candidate is found
         // Find smallest value in last column
         if (settings->psi_1e != 0) {
             for (ri=l1-1; ri>l1-settings->psi_1e-2 && ri>=0; ri--) {
@@ -2493,9 +2493,9 @@ seq_t dtw_warping_paths_affinity_ndim_euclidean(seq_t *wps,
         rvalue = wps[loc_base + l2 - loc_cb];
     } else if (return_dtw) {
         seq_t mir_value = -INFINITY;
-        idx_t mir_rel = 0;
+        idx_t mir_rel = l1;  // nothing is marked if no candidate is found
         seq_t mic_value = -INFINITY;
-        idx_t mic = 0;
+        idx_t mic = l2;  // nothing is marked if no candidate is found
         // Find smallest value in last column
         if (settings->psi_1e != 0) {
             for (ri=l1-1; ri>l1-settings->psi_1e-2 && ri>=0; ri--) {
@@ -3183,6 +3183,10 @@ idx_t dtw_best_path(seq_t *wps, idx_t *i1, idx_t *i2, idx_t l1, idx_t l2,
                 if (cs <= 1) { break; }
                 cs--;
             }
+        }
+        if (dtw_wps_value(&p, wps, rs, cs, l1, l2) == INFINITY) {
+            // No cell with a finite value follows the marked cells: there is no path to trace
+            return 0;
         }
         return dtw_best_path_customstart(wps, i1, i2, l1, l2, rs, cs, settings);
     }
